@@ -38,6 +38,8 @@ class WsgiInput:
         self.L = L
         self.pos = 0
         self.ok = True
+        self.last_n = None  # ghost: size of the last request made to the server, and how many bytes it returned
+        self.last_k = None
 
     def _take(self, n, what):
         v = self.v
@@ -48,6 +50,7 @@ class WsgiInput:
         v.assume(Implies(n >= 0, k <= n))
         r = self.src[self.pos : self.pos + k]
         self.pos = self.pos + k
+        self.last_n, self.last_k = n, k
         return r
 
     def read(self, n=-1):
@@ -160,8 +163,8 @@ def _with_read_contract(reg, ex):
 
 
 def _exhaust_loops(reg, ex):
-    _with_read_contract(reg, ex)
-
+    # read() / _read() are executed from source over the WsgiInput stub (not replaced by their contract), so that
+    # the ghost record of the last server request (last_n, last_k) is the same in symbolic and in replay mode
     def havoc(ctx, L):
         s = L['self']
         srv = s._fields['stream']
@@ -178,16 +181,25 @@ def _inv_obj(s):
     return And(rem >= 0, rem == srv.L - srv.pos, srv.pos <= Len(srv.src), s._fields['stream_len'] == srv.L)
 
 
-@harness(PROP, BS + '.exhaust', setup=_exhaust_loops)
+@harness(PROP, BS + '.exhaust', inline=INLINE + [BS + '.read'], setup=_exhaust_loops)
 def wsgi_exhaust(v):
+    v.expect_covers('returns', 'returns-with-default-chunk-size')
     s, srv, L, src, out0 = mk_stream(v)
-    cs = v.int('chunk_size', 1)
-    out = v.call(s, cs)
+    given = v.choose(2, 'chunk_size-given?')  # exhaust() with the documented default chunk size / exhaust(n)
+    if given:
+        cs = v.int('chunk_size', 1)
+        out = v.call(s, cs)
+    else:
+        out = v.call(s)
     v.check('no-exception', out.exc is None)
     if out.exc is None:
-        v.check('invariant-after-exhaust', _inv_obj(s) if not v.concrete else True)
+        v.check('invariant-after-exhaust', inv(v, s, srv, L, srv.pos))
         v.check('nothing-beyond-content-length', srv.pos <= L)
-        v.cover('returns')
+        # "consumes all the data left until the limit is reached": exhaust gives up only when the declared length has been
+        # delivered, or when the server answered a request for at least one byte with nothing (its end of input)
+        v.check('exhaust-stops-only-at-content-length-or-server-eof',
+                Or(v.get(s, '_bytes_remaining') == 0, And(srv.last_k == 0, srv.last_n > 0)) if srv.last_n is not None else v.get(s, '_bytes_remaining') == 0)
+        v.cover('returns' if given else 'returns-with-default-chunk-size')
 
 
 def _readlines_setup(reg, ex):
@@ -270,7 +282,13 @@ def wsgi_init(v):
 ASSUMPTIONS = [
     'WSGI server stream contract (PEP 3333 / io.BufferedIOBase): read(n), readline(n) with n >= 0 return a prefix of the remaining body of length <= n',
 ]
-NOT_DECIDED = []
+NOT_DECIDED = [
+    'exhaust(chunk_size) with chunk_size <= 0 (outside the documented "size for a chunk": 0 makes no progress, a negative size reads the remainder in one request); '
+    'exhaust() with the default and exhaust(n) for every n >= 1 are covered',
+    'the deprecated aliases is_exhausted / next and the constant answers readable / seekable / writable / write are not under contract',
+    'wiring harnesses: the server input is read from env["wsgi.input"] (WSGI) / the receive callable and first event are passed through as opaque objects (ASGI); '
+    'they start from a request whose stream has not been built yet (the cached state is covered by the second access)',
+]
 TRUSTED = ['ghost stub WsgiInput (server stream) in contracts/C07_streams.py']
 
 
@@ -329,7 +347,8 @@ AREQ = 'falcon.asgi.request:Request'
 def asgi_wiring(v):
     if v.concrete:
         return
-    cl_kind = v.choose(2, 'content-length')
+    v.expect_covers('wired', 'invalid-content-length')
+    cl_kind = v.choose(3, 'content-length')  # 0: absent (None), 1: a number, 2: invalid header (the accessor raises HTTPInvalidHeader, C09)
     n = v.int('declared', 0)
     built = []
 
@@ -340,13 +359,30 @@ def asgi_wiring(v):
     import falcon.asgi.request as far
 
     v.registry.add_model(far.BoundedStream, mk_bounded)
-    v.registry.stubs[AREQ + '.content_length'] = lambda I, self: (n if cl_kind == 1 else None)
+    InvalidHeader = v.real('falcon.errors:HTTPInvalidHeader')
+
+    def content_length_stub(I, self):
+        if cl_kind == 2:
+            I.ctx.raise_py(InvalidHeader, 'bad', 'Content-Length')
+        return n if cl_kind == 1 else None
+
+    v.registry.stubs[AREQ + '.content_length'] = content_length_stub
     receive, first = object(), {'type': 'http.request'}
     ws = bool(v.choose(2, 'websocket?'))
     req = v.obj(AREQ, is_websocket=ws, _stream=None, _receive=receive, _first_event=first)
     out1 = v.call(req)
     if ws:
         v.check('websocket-handshake-has-no-body-stream', out1.exc is not None and out1.exc.isa(v.real('falcon.errors:UnsupportedError')) and not built)
+        return
+    if cl_kind == 2:
+        # a Content-Length that is not a non-negative number declares no body length at all: on ASGI the 400-class error of the
+        # accessor escapes (there is no "assume no content" fallback as on WSGI) -- in particular no stream without a budget
+        # is handed out for it, now or on a later access
+        out2 = v.call(req)
+        v.check('invalid-content-length-is-a-400-class-error-and-no-stream-is-built',
+                out1.exc is not None and out1.exc.isa(InvalidHeader) and out2.exc is not None and out2.exc.isa(InvalidHeader)
+                and not built and v.get(req, '_stream') is None)
+        v.cover('invalid-content-length')
         return
     out2 = v.call(req)
     v.check('no-exception', out1.exc is None and out2.exc is None)
@@ -366,4 +402,12 @@ KILLS = [
     ('falcon/request.py', "        if self._bounded_stream is None:\n            self._bounded_stream = self._get_wrapped_wsgi_input()\n\n        return self._bounded_stream",
      "        return self._get_wrapped_wsgi_input()", 'Request.bounded_stream#wrapped-exactly-once-and-cached'),
     ('falcon/asgi/request.py', "                content_length=self.content_length,\n", "                content_length=None,\n", 'asgi.request:Request.stream#built-over'),
+    # exhaust() WITHOUT an argument: a default chunk size of 0 makes the first read return b'' at once (nothing is consumed); exhaust(n) is unaffected
+    ('falcon/stream.py', "    def exhaust(self, chunk_size: int = 64 * 1024) -> None:\n", "    def exhaust(self, chunk_size: int = 0) -> None:\n",
+     'BoundedStream.exhaust#exhaust-stops-only-at-content-length-or-server-eof'),
+    # ASGI, invalid Content-Length header only: the 400-class error is swallowed ("as on WSGI") and a stream without any budget is handed out
+    ('falcon/asgi/request.py', "        if not self._stream:\n            self._stream = BoundedStream(\n",
+     "        if not self._stream:\n            try:\n                self.content_length\n            except errors.HTTPInvalidHeader:\n"
+     "                self._stream = BoundedStream(self._receive, first_event=self._first_event)\n                return self._stream\n            self._stream = BoundedStream(\n",
+     'asgi.request:Request.stream#invalid-content-length-is-a-400-class-error-and-no-stream-is-built'),
 ]
